@@ -25,7 +25,9 @@ def _h(key):
 def jsonable(x, depth=0):
     if depth > 8:
         return repr(x)[:200]
-    if isinstance(x, (str, int, float, bool)) or x is None:
+    if isinstance(x, str):
+        return x if len(x) <= 600 else x[:600] + '...(%d chars)' % len(x)
+    if isinstance(x, (int, float, bool)) or x is None:
         return x
     if isinstance(x, bytes):
         return {'bytes': x.decode('latin-1')}
